@@ -59,6 +59,14 @@ INFO = {
     "C12-D": ("'already sorted' flag not cleared by set() of an absent name", "history sort(); set(absent name); sort()"),
     "C19-C": ("AUTHORITY state host-missing check tests the wrong view: non-special URL with credentials and empty host accepted", "non-special scheme, userinfo, empty host, then at least one more character (foo://user:pw@/path)"),
     "C19-D": ("cannot_have_credentials_or_port() no longer excludes file URLs", "file URL with a non-empty host followed by set_port / set_username / set_password"),
+    "C04-C": ("url::parse_path treats an empty-but-present host like a null host", "ada::url only, non-special URL with empty host, then set_pathname('')"),
+    "C04-D": ("aggregator consume_prepared_path drops the built path when the last segment is '..' after an empty segment", "special URL path ending in '//..' on the fast path builder (http://h/a//..)"),
+    "C08-C": ("validation-only parser skips to after the last '@': credentials followed by an empty host accepted", "non-special scheme, userinfo + empty host, through can_parse's size_safe (store_values=false) branch"),
+    "C08-D": ("can_parse enters the absolute hot path even when a base is given", "absolute special URL accepted by the scanner, base present but unparsable or longer than the limit"),
+    "C10-C": ("update_base_hostname resets host_type after the parser copied the base's host_type", "aggregator, relative reference inheriting an IPv4/IPv6 host from the base"),
+    "C10-D": ("fast path runs is_ipv4() before lower-casing the host", "fast-path http(s) URL whose last host label is a hex number with upper-case X/A-F"),
+    "C17-C": ("ada_get_components returns a pointer to a thread_local snapshot", "a components pointer held across a later call on the same or another handle"),
+    "C17-D": ("ada_parse_with_base treats an empty/NULL base as 'no base'", "base of length 0 with an input that parses on its own"),
     "C19-A": ("parse_scheme slow path no longer clears a port equal to the new scheme's default", "set_protocol with a special scheme spelled with an upper-case letter on a URL whose port is that scheme's default (https://h:80 -> 'HTTP')"),
     "C19-B": ("unicode::to_ascii accepts an empty IDNA result: special URL with an empty host", "special non-file URL whose host consists only of IDNA-ignored code points (U+00AD ...), via parse or host setters"),
     "C18-A": ("AVX-512-only ipv6_structure_plausible(): 'colons > 8' became '> 7'", "-mavx512bw -mavx512vl build, bracketed IPv6 host with exactly 8 colons"),
